@@ -467,4 +467,448 @@ theorem sm_exact (es : List SMEntry) (hok : ∀ e ∈ es, e.ok) : parseSM (encSM
   rw [length_encSMs, show (8 * es.length + 7) / 8 = es.length by omega]
   exact smGo_enc es hok {} 0
 
+/-! ### `parse_pdos`: the inner `parse` -/
+
+/-- Σ of the bit sizes of the entries before position `i` -/
+def bitsBefore (es : List Entry) (i : Nat) : Nat := ((es.take i).map (·.bits)).sum
+
+/-- bit entries get the bit number inside the byte, byte entries the format letter of their size -/
+def locOf (e : Entry) (bp : Nat) : Option Loc :=
+  if e.bits < 8 then some (.bit (bp % 8)) else (fmtOf e.bits).map .fmt
+
+/-- the `pdos` item entry number `i` must produce when the walk started at bit `bp0`:
+none for padding (`idx == 0`), else `(idx, subidx) ↦ (sm, Σ previous bits / 8, bit or format)` -/
+def mappedAt (sm bp0 : Nat) (es : List Entry) (i : Nat) : Option ((Nat × Nat) × (Nat × Nat × Loc)) :=
+  match es[i]? with
+  | none => none
+  | some e =>
+    if e.idx = 0 then none
+    else (locOf e (bp0 + bitsBefore es i)).map fun l => ((e.idx, e.subidx), (sm, (bp0 + bitsBefore es i) / 8, l))
+
+def mapped (sm bp0 : Nat) (es : List Entry) : List ((Nat × Nat) × (Nat × Nat × Loc)) :=
+  (List.range es.length).filterMap (mappedAt sm bp0 es)
+
+/-- every mapped byte entry (8 bits or more) has one of the sizes 8/16/32/64 and starts on a byte -/
+def Aligned (bp0 : Nat) (es : List Entry) : Prop :=
+  ∀ i e, es[i]? = some e → e.idx ≠ 0 → 8 ≤ e.bits → (fmtOf e.bits).isSome = true ∧ (bp0 + bitsBefore es i) % 8 = 0
+
+theorem bitsBefore_cons (e : Entry) (es : List Entry) (i : Nat) :
+    bitsBefore (e :: es) (i + 1) = e.bits + bitsBefore es i := by
+  simp [bitsBefore]
+
+theorem mappedAt_cons (sm bp0 : Nat) (e : Entry) (es : List Entry) (i : Nat) :
+    mappedAt sm bp0 (e :: es) (i + 1) = mappedAt sm (bp0 + e.bits) es i := by
+  simp only [mappedAt, List.getElem?_cons_succ, bitsBefore_cons, Nat.add_assoc]
+
+theorem mapped_cons (sm bp0 : Nat) (e : Entry) (es : List Entry) :
+    mapped sm bp0 (e :: es) = (mappedAt sm bp0 (e :: es) 0).toList ++ mapped sm (bp0 + e.bits) es := by
+  unfold mapped
+  rw [List.length_cons, List.range_succ_eq_map, List.filterMap_cons, List.filterMap_map]
+  have : (mappedAt sm bp0 (e :: es) ∘ Nat.succ) = mappedAt sm (bp0 + e.bits) es := by
+    funext i; exact mappedAt_cons sm bp0 e es i
+  rw [this]
+  cases mappedAt sm bp0 (e :: es) 0 <;> simp
+
+theorem Aligned_cons {bp0 : Nat} {e : Entry} {es : List Entry} (h : Aligned bp0 (e :: es)) :
+    Aligned (bp0 + e.bits) es := by
+  intro i e' hi h0 h8
+  have := h (i + 1) e' (by simpa using hi) h0 h8
+  rw [bitsBefore_cons] at this
+  exact ⟨this.1, by rw [Nat.add_assoc]; exact this.2⟩
+
+theorem fmtOf_mod8 (b : Nat) (h : (fmtOf b).isSome = true) : b % 8 = 0 := by
+  unfold fmtOf at h
+  split at h; · omega
+  split at h; · omega
+  split at h; · omega
+  split at h; · omega
+  simp at h
+
+theorem parseGo_exact (sm : Nat) (es : List Entry) (bp0 : Nat) (m : PdoDict) (h : Aligned bp0 es) :
+    parseGo sm es bp0 m = (dictOfFrom m (mapped sm bp0 es), bp0 + bitsBefore es es.length, none) := by
+  induction es generalizing bp0 m with
+  | nil => simp [parseGo, mapped, dictOfFrom, bitsBefore]
+  | cons e es ih =>
+    have ih' := fun m' => ih (bp0 + e.bits) m' (Aligned_cons h)
+    have hb : bp0 + bitsBefore (e :: es) (e :: es).length = bp0 + e.bits + bitsBefore es es.length := by
+      rw [List.length_cons, bitsBefore_cons]; omega
+    rw [mapped_cons, hb]
+    unfold parseGo
+    have h0' : bitsBefore (e :: es) 0 = 0 := by simp [bitsBefore]
+    by_cases h0 : e.idx = 0
+    · simp [h0, ih', mappedAt]
+    · by_cases h8 : e.bits < 8
+      · simp [h0, h8, ih', mappedAt, locOf, h0', dictOfFrom]
+      · obtain ⟨hf, ha⟩ := h 0 e (by simp) h0 (by omega)
+        rw [h0', Nat.add_zero] at ha
+        have hm := fmtOf_mod8 _ hf
+        obtain ⟨c, hc⟩ := Option.isSome_iff_exists.mp hf
+        simp [h0, h8, ih', mappedAt, locOf, h0', dictOfFrom, hm, ha, hc]
+
+/-- **pdo_exact**: for every entry list (any length; padding entries, bit entries, byte entries in
+any order) that is `Aligned`, and every previous content `m` of `pdos`, the inner `parse` assigns
+to each mapped entry exactly `(sm, Σ previous bits / 8, bit position or format letter)`, in order
+(later duplicates of an `(idx, subidx)` overwrite), raises nothing and returns the total bit count. -/
+theorem pdo_exact (sm : Nat) (es : List Entry) (m : PdoDict) (h : Aligned 0 es) :
+    parseGo sm es 0 m = (dictOfFrom m (mapped sm 0 es), bitsBefore es es.length, none) := by
+  simpa using parseGo_exact sm es 0 m h
+
+/-- the first entry that breaks `Aligned`, if any: a byte entry not on a byte boundary or with a
+size that is no multiple of 8 (`RuntimeError`), else with a size outside 8/16/32/64 (`KeyError`) -/
+theorem pdo_rejects (sm : Nat) (es : List Entry) (bp0 : Nat) (m : PdoDict) (h : ¬ Aligned bp0 es) :
+    (parseGo sm es bp0 m).2.2 = some .runtime ∨ (parseGo sm es bp0 m).2.2 = some .key := by
+  induction es generalizing bp0 m with
+  | nil => exfalso; apply h; intro i e hi; simp at hi
+  | cons e es ih =>
+    unfold parseGo
+    have hrest : (e.idx = 0 ∨ e.bits < 8 ∨ ((fmtOf e.bits).isSome = true ∧ bp0 % 8 = 0)) →
+        ¬ Aligned (bp0 + e.bits) es := by
+      intro hh ha
+      apply h
+      intro i e' hi h0 h8
+      cases i with
+      | zero =>
+        simp at hi; subst hi
+        rcases hh with hh | hh | hh
+        · exact absurd hh h0
+        · omega
+        · simpa [bitsBefore] using hh
+      | succ i =>
+        have := ha i e' (by simpa using hi) h0 h8
+        rw [bitsBefore_cons]
+        exact ⟨this.1, by rw [← Nat.add_assoc]; exact this.2⟩
+    by_cases h0 : e.idx = 0
+    · simpa [h0] using ih _ _ (hrest (Or.inl h0))
+    · by_cases h8 : e.bits < 8
+      · simpa [h0, h8] using ih _ _ (hrest (Or.inr (Or.inl h8)))
+      · simp only [h0, h8, ↓reduceIte]
+        by_cases hr : (e.bits % 8 != 0 || bp0 % 8 != 0) = true
+        · simp [hr]
+        · simp only [hr, Bool.false_eq_true, ↓reduceIte]
+          cases hf : fmtOf e.bits with
+          | none => simp
+          | some c =>
+            simp only
+            apply ih
+            apply hrest
+            simp at hr
+            exact Or.inr (Or.inr ⟨by simp [hf], hr.2⟩)
+
+/-! ### the EEPROM source of `parse_pdos` (categories 50 / 51) -/
+
+/-- one 8-byte PDO entry record: the entry and the bytes the driver skips (name index, data type,
+two padding bytes) -/
+structure EntryRec where
+  e : Entry
+  k1 : UInt8
+  k2 : UInt8
+  p6 : UInt8
+  p7 : UInt8
+deriving Repr, DecidableEq
+
+/-- one PDO: 8-byte header (index, number of entries, sync manager, three more fields) + entries -/
+structure PdoRec where
+  idx : Nat
+  sm : UInt8
+  u1 : UInt8
+  u2 : UInt8
+  u3a : UInt8
+  u3b : UInt8
+  entries : List EntryRec
+deriving Repr, DecidableEq
+
+def EntryRec.ok (x : EntryRec) : Prop := x.e.idx < 65536 ∧ x.e.subidx < 256 ∧ x.e.bits < 256
+def PdoRec.ok (p : PdoRec) : Prop := p.entries.length < 256 ∧ ∀ x ∈ p.entries, x.ok
+
+def encEntry (x : EntryRec) : List UInt8 :=
+  encLE 2 x.e.idx ++ [UInt8.ofNat x.e.subidx, x.k1, x.k2, UInt8.ofNat x.e.bits, x.p6, x.p7]
+def encEntries : List EntryRec → List UInt8
+  | [] => []
+  | x :: xs => encEntry x ++ encEntries xs
+def encPdo (p : PdoRec) : List UInt8 :=
+  (encLE 2 p.idx ++ [UInt8.ofNat p.entries.length, p.sm, p.u1, p.u2, p.u3a, p.u3b]) ++ encEntries p.entries
+def encPdos : List PdoRec → List UInt8
+  | [] => []
+  | p :: ps => encPdo p ++ encPdos ps
+
+def entriesOf (ps : List PdoRec) : List Entry := ps.flatMap fun p => p.entries.map (·.e)
+
+theorem length_encEntry (x : EntryRec) : (encEntry x).length = 8 := by simp [encEntry]
+
+theorem takeEntries_enc (xs : List EntryRec) (rest : List UInt8) (hok : ∀ x ∈ xs, x.ok) :
+    takeEntries xs.length (encEntries xs ++ rest) = (xs.map (·.e), rest, true) := by
+  induction xs with
+  | nil => simp [takeEntries, encEntries]
+  | cons x xs ih =>
+    obtain ⟨h1, h2, h3⟩ := hok x (by simp)
+    have hl : ¬ (encEntry x ++ encEntries xs ++ rest).length < 8 := by simp [length_encEntry]
+    simp only [List.length_cons, takeEntries, encEntries, hl, ↓reduceIte]
+    rw [List.append_assoc, List.drop_left' (length_encEntry x), ih (fun y hy => hok y (by simp [hy]))]
+    have t1 : (encEntry x ++ (encEntries xs ++ rest)).take 2 = encLE 2 x.e.idx := by
+      rw [encEntry, List.append_assoc, List.take_left' (by simp)]
+    have t2 : ((encEntry x ++ (encEntries xs ++ rest)).getD 2 0).toNat = x.e.subidx := by
+      simp [encEntry, encLE, Nat.mod_eq_of_lt h2]
+    have t3 : ((encEntry x ++ (encEntries xs ++ rest)).getD 5 0).toNat = x.e.bits := by
+      simp [encEntry, encLE, Nat.mod_eq_of_lt h3]
+    rw [t1, t2, t3, decLE_encLE 2 _ (by omega)]
+    rfl
+
+theorem pdoCatGo_enc (ps : List PdoRec) (hok : ∀ p ∈ ps, p.ok) (f : Nat) (hf : ps.length ≤ f) :
+    pdoCatGo f (encPdos ps) = (entriesOf ps, true) := by
+  induction ps generalizing f with
+  | nil => cases f <;> simp [pdoCatGo, encPdos, entriesOf]
+  | cons p ps ih =>
+    obtain ⟨f, rfl⟩ : ∃ f', f = f' + 1 := ⟨f - 1, by simp at hf; omega⟩
+    obtain ⟨hn, hx⟩ := hok p (by simp)
+    have hl : (encPdo p ++ encPdos ps).length = 8 + ((encEntries p.entries).length + (encPdos ps).length) := by
+      simp [encPdo]; omega
+    have hl0 : ¬ (encPdo p ++ encPdos ps).length = 0 := by omega
+    have hl8 : ¬ (encPdo p ++ encPdos ps).length < 8 := by omega
+    have tn : ((encPdo p ++ encPdos ps).getD 2 0).toNat = p.entries.length := by
+      simp [encPdo, encLE, Nat.mod_eq_of_lt hn]
+    have td : (encPdo p ++ encPdos ps).drop 8 = encEntries p.entries ++ encPdos ps := by
+      rw [encPdo, List.append_assoc, List.drop_left' (by simp)]
+    show pdoCatGo (f + 1) (encPdo p ++ encPdos ps) = _
+    rw [pdoCatGo]
+    simp only [hl0, hl8, ↓reduceIte, tn, td, takeEntries_enc _ _ hx,
+      ih (fun q hq => hok q (by simp [hq])) f (by simp at hf; omega)]
+    simp [entriesOf]
+
+theorem length_encPdos_ge (ps : List PdoRec) : ps.length ≤ (encPdos ps).length := by
+  induction ps with
+  | nil => simp
+  | cons p ps ih => simp [encPdos, encPdo]; omega
+
+/-- **pdo_eeprom_source_exact**: for every list of PDO records (any number of PDOs, 0..255 entries
+each, any skipped bytes) the EEPROM source yields exactly the stored `(idx, subidx, bits)` triples
+in order and raises nothing. -/
+theorem pdo_eeprom_source_exact (ps : List PdoRec) (hok : ∀ p ∈ ps, p.ok) :
+    pdoCat (encPdos ps) = (entriesOf ps, none) := by
+  simp [pdoCat, pdoCatGo_enc ps hok _ (length_encPdos_ge ps)]
+
+/-! ### the SDO source of `parse_pdos` (objects 0x1c12 / 0x1c13) -/
+
+/-- one assigned PDO as the object dictionary describes it -/
+structure PdoObj where
+  pdo : Nat
+  entries : List Entry
+deriving Repr, DecidableEq
+
+def encSdoEntry (e : Entry) : List UInt8 := [UInt8.ofNat e.bits, UInt8.ofNat e.subidx] ++ encLE 2 e.idx
+
+/-- the object dictionary `od` describes the assignment `assign` at `index`: subindex 0 holds the
+count, subindex i the 16-bit PDO index; each non-zero PDO object holds its entry count and
+entries `(bits, subidx, idx)` -/
+def Describes (od : OD) (index : Nat) (assign : List PdoObj) : Prop :=
+  assign.length < 256 ∧
+  dictGet od (index, 0) = some [UInt8.ofNat assign.length] ∧
+  ∀ i a, assign[i]? = some a →
+    a.pdo < 65536 ∧ dictGet od (index, i + 1) = some (encLE 2 a.pdo) ∧
+    (a.pdo ≠ 0 →
+      a.entries.length < 256 ∧
+      dictGet od (a.pdo, 0) = some [UInt8.ofNat a.entries.length] ∧
+      ∀ j e, a.entries[j]? = some e →
+        e.idx < 65536 ∧ e.subidx < 256 ∧ e.bits < 256 ∧ dictGet od (a.pdo, j + 1) = some (encSdoEntry e))
+
+def sdoEntriesOf (assign : List PdoObj) : List Entry :=
+  assign.flatMap fun a => if a.pdo = 0 then [] else a.entries
+
+theorem pdoEntries_spec (od : OD) (pdo : Nat) (l : List Entry) (j : Nat)
+    (h : ∀ k e, l[k]? = some e →
+      e.idx < 65536 ∧ e.subidx < 256 ∧ e.bits < 256 ∧ dictGet od (pdo, j + k) = some (encSdoEntry e)) :
+    pdoEntries od pdo l.length j = (l, none) := by
+  induction l generalizing j with
+  | nil => rfl
+  | cons e l ih =>
+    obtain ⟨h1, h2, h3, hg⟩ := h 0 e (by simp)
+    have hr : readBBH od pdo j = .ok e := by
+      simp only [Nat.add_zero] at hg
+      simp [readBBH, sdoGet, hg, encSdoEntry, encLE]
+      have := decLE_encLE 2 e.idx (by omega)
+      simp [encLE] at this
+      cases e; simp_all [Nat.mod_eq_of_lt]
+    simp only [List.length_cons, pdoEntries, hr]
+    rw [ih (j + 1) (fun k e' hk => by
+      have := h (k + 1) e' (by simpa using hk)
+      rwa [show j + (k + 1) = j + 1 + k by omega] at this)]
+
+theorem assignEntries_spec (od : OD) (index : Nat) (l : List PdoObj) (i : Nat)
+    (h : ∀ k a, l[k]? = some a →
+      a.pdo < 65536 ∧ dictGet od (index, i + k) = some (encLE 2 a.pdo) ∧
+      (a.pdo ≠ 0 →
+        a.entries.length < 256 ∧
+        dictGet od (a.pdo, 0) = some [UInt8.ofNat a.entries.length] ∧
+        ∀ j e, a.entries[j]? = some e →
+          e.idx < 65536 ∧ e.subidx < 256 ∧ e.bits < 256 ∧ dictGet od (a.pdo, j + 1) = some (encSdoEntry e))) :
+    assignEntries od index l.length i = (sdoEntriesOf l, none) := by
+  induction l generalizing i with
+  | nil => rfl
+  | cons a l ih =>
+    obtain ⟨h1, hg, hp⟩ := h 0 a (by simp)
+    have ih' := ih (i + 1) (fun k a' hk => by
+      have := h (k + 1) a' (by simpa using hk)
+      rwa [show i + (k + 1) = i + 1 + k by omega] at this)
+    have hr : readH od index i = .ok a.pdo := by
+      simp only [Nat.add_zero] at hg
+      have := decLE_encLE 2 a.pdo (by omega)
+      simp [encLE] at this
+      simp [readH, sdoGet, hg, encLE, this]
+    simp only [List.length_cons, assignEntries, hr]
+    by_cases h0 : a.pdo = 0
+    · simp [h0, ih', sdoEntriesOf]
+    · obtain ⟨hn, hc, he⟩ := hp h0
+      have hb : readB od a.pdo 0 = .ok a.entries.length := by
+        simp [readB, sdoGet, hc, Nat.mod_eq_of_lt hn]
+      have hpe := pdoEntries_spec od a.pdo a.entries 1 (fun j e hj => by
+        have := he j e hj
+        rwa [show j + 1 = 1 + j by omega] at this)
+      simp [h0, hb, hpe, ih', sdoEntriesOf]
+
+/-- **pdo_sdo_source_exact**: for every assignment table (any number of assigned PDOs incl. empty
+slots `0`, any entry lists) that the object dictionary describes, the SDO source yields exactly
+the stored `(idx, subidx, bits)` triples of the non-zero PDOs in order and raises nothing. -/
+theorem pdo_sdo_source_exact (od : OD) (index : Nat) (assign : List PdoObj) (h : Describes od index assign) :
+    sdoEntries od index = (sdoEntriesOf assign, none) := by
+  obtain ⟨hn, hc, ha⟩ := h
+  have hb : readB od index 0 = .ok assign.length := by
+    simp [readB, sdoGet, hc, Nat.mod_eq_of_lt hn]
+  simp only [sdoEntries, hb]
+  exact assignEntries_spec od index assign 1 (fun k a hk => by
+    have := ha k a hk
+    rwa [show k + 1 = 1 + k by omega] at this)
+
+/-- `Aligned` as a program (so that concrete tables are checked by evaluation) -/
+def alignedB : Nat → List Entry → Bool
+  | _, [] => true
+  | bp, e :: es =>
+    (e.idx == 0 || decide (e.bits < 8) || ((fmtOf e.bits).isSome && bp % 8 == 0)) && alignedB (bp + e.bits) es
+
+theorem aligned_iff (bp0 : Nat) (es : List Entry) : Aligned bp0 es ↔ alignedB bp0 es = true := by
+  induction es generalizing bp0 with
+  | nil => simp [alignedB, Aligned]
+  | cons e es ih =>
+    simp only [alignedB, Bool.and_eq_true, Bool.or_eq_true, beq_iff_eq, decide_eq_true_eq, ← ih]
+    constructor
+    · intro h
+      refine ⟨?_, Aligned_cons h⟩
+      by_cases h0 : e.idx = 0
+      · exact Or.inl (Or.inl h0)
+      · by_cases h8 : e.bits < 8
+        · exact Or.inl (Or.inr h8)
+        · have := h 0 e (by simp) h0 (by omega)
+          exact Or.inr ⟨this.1, by simpa [bitsBefore] using this.2⟩
+    · rintro ⟨hh, ha⟩ i e' hi h0 h8
+      cases i with
+      | zero =>
+        simp at hi; subst hi
+        rcases hh with (hh | hh) | hh
+        · exact absurd hh h0
+        · omega
+        · simpa [bitsBefore] using hh
+      | succ i =>
+        have := ha i e' (by simpa using hi) h0 h8
+        rw [bitsBefore_cons]
+        exact ⟨this.1, by rw [← Nat.add_assoc]; exact this.2⟩
+
+/-! ### `parse_pdos` as a whole, both sources -/
+
+theorem parse_ok (sm : Nat) (es : List Entry) (m : PdoDict) (h : Aligned 0 es) :
+    parse sm (es, none) m = (dictOfFrom m (mapped sm 0 es), .ok (bitsBefore es es.length)) := by
+  simp [parse, pdo_exact sm es m h]
+
+/-- **parse_pdos_eeprom_exact**: terminal without mailbox, RxPDO category 51 and TxPDO category 50
+present with any PDO records whose entry lists are aligned: `pdos` is exactly the outputs mapped
+with `SyncManager.OUT` followed by the inputs mapped with `SyncManager.IN`, and the returned pair
+is the two bit totals. -/
+theorem parse_pdos_eeprom_exact (od : OD) (eeprom : Cats) (pso psi : List PdoRec)
+    (ho : dictGet eeprom catRxPdo = some (encPdos pso)) (hi : dictGet eeprom catTxPdo = some (encPdos psi))
+    (hoko : ∀ p ∈ pso, p.ok) (hoki : ∀ p ∈ psi, p.ok)
+    (hao : Aligned 0 (entriesOf pso)) (hai : Aligned 0 (entriesOf psi)) :
+    parsePdos false od eeprom =
+      (dictOfFrom (dictOfFrom [] (mapped sm_OUT 0 (entriesOf pso))) (mapped sm_IN 0 (entriesOf psi)),
+       .ok (bitsBefore (entriesOf pso) (entriesOf pso).length, bitsBefore (entriesOf psi) (entriesOf psi).length)) := by
+  simp [parsePdos, ho, hi, pdo_eeprom_source_exact pso hoko, pdo_eeprom_source_exact psi hoki,
+    parse_ok _ _ _ hao, parse_ok _ _ _ hai]
+
+/-- a missing category contributes nothing and 0 bits -/
+theorem parse_pdos_eeprom_absent (od : OD) (eeprom : Cats)
+    (ho : dictGet eeprom catRxPdo = none) (hi : dictGet eeprom catTxPdo = none) :
+    parsePdos false od eeprom = ([], .ok (0, 0)) := by
+  simp [parsePdos, ho, hi]
+
+/-- **parse_pdos_sdo_exact**: terminal with mailbox whose object dictionary describes the
+assignments at 0x1c12 / 0x1c13 with aligned entry lists. -/
+theorem parse_pdos_sdo_exact (od : OD) (eeprom : Cats) (ao ai : List PdoObj)
+    (ho : Describes od idxRxAssign ao) (hi : Describes od idxTxAssign ai)
+    (hao : Aligned 0 (sdoEntriesOf ao)) (hai : Aligned 0 (sdoEntriesOf ai)) :
+    parsePdos true od eeprom =
+      (dictOfFrom (dictOfFrom [] (mapped sm_OUT 0 (sdoEntriesOf ao))) (mapped sm_IN 0 (sdoEntriesOf ai)),
+       .ok (bitsBefore (sdoEntriesOf ao) (sdoEntriesOf ao).length,
+            bitsBefore (sdoEntriesOf ai) (sdoEntriesOf ai).length)) := by
+  simp [parsePdos, pdo_sdo_source_exact od _ _ ho, pdo_sdo_source_exact od _ _ hi,
+    parse_ok _ _ _ hao, parse_ok _ _ _ hai]
+
+/-! ### non-vacuity: concrete inputs meet the hypotheses and exercise every branch -/
+
+/-- an EL1008-like table: 8 bit inputs, padding, then a 16-bit and a 32-bit value -/
+def exEntries : List Entry :=
+  [⟨0x6000, 1, 1⟩, ⟨0x6010, 1, 1⟩, ⟨0, 0, 6⟩, ⟨0x6020, 1, 16⟩, ⟨0, 0, 8⟩, ⟨0x6030, 2, 32⟩, ⟨0x6040, 0, 3⟩]
+
+example : Aligned 0 exEntries := (aligned_iff _ _).mpr (by decide)
+
+example : parseGo 3 exEntries 0 [] =
+    ([((0x6000, 1), (3, 0, .bit 0)), ((0x6010, 1), (3, 0, .bit 1)), ((0x6020, 1), (3, 1, .fmt 'H')),
+      ((0x6030, 2), (3, 4, .fmt 'I')), ((0x6040, 0), (3, 8, .bit 0))], 67, none) := by decide
+example : mapped 3 0 exEntries =
+    [((0x6000, 1), (3, 0, .bit 0)), ((0x6010, 1), (3, 0, .bit 1)), ((0x6020, 1), (3, 1, .fmt 'H')),
+      ((0x6030, 2), (3, 4, .fmt 'I')), ((0x6040, 0), (3, 8, .bit 0))] := by decide
+-- a 16-bit entry at bit 1: RuntimeError; a 24-bit entry: KeyError
+example : (parseGo 3 [⟨0x6000, 1, 1⟩, ⟨0x6010, 1, 16⟩] 0 []).2.2 = some .runtime := by decide
+example : (parseGo 3 [⟨0x6000, 1, 24⟩] 0 []).2.2 = some .key := by decide
+
+def exCats : List Cat := [⟨10, [1, 2]⟩, ⟨41, [0, 0x10, 0x80, 0, 0x26, 0, 1, 1, 0x80, 0x10, 0x80, 0, 0x22, 0, 1, 2]⟩,
+  ⟨30, []⟩, ⟨50, [0, 0x1a, 1, 3, 0, 0, 0, 0, 0, 0x60, 1, 0, 0, 1, 0, 0]⟩, ⟨60, [9, 8, 7, 6, 5, 4]⟩]
+example : ∀ c ∈ exCats, c.ok := by decide
+example : (exCats.map (·.type)).Nodup := by decide
+
+/-- a whole image read in 4-byte mode with a busy device: identity, categories (payloads of 1, 8,
+0, 8 and 3 words cross the 8-byte read boundaries) -/
+example :
+    let img := mkImage ((List.range 128).map UInt8.ofNat) exCats [0xaa]
+    let r := readEeprom ⟨img, false⟩ (Bus.init [⟨true, 0xffff, [1, 2, 3]⟩, ⟨false, 7, [9, 9, 9, 9, 9, 9, 9, 9]⟩, ⟨true, 0, []⟩])
+    r.eeprom = some (exCats.map fun c => (c.type, c.payload)) ∧
+    (r.vendorId, r.productCode, r.revisionNo, r.serialNo) = (0x13121110, 0x17161514, 0x1b1a1918, 0x1f1e1d1c) := by
+  decide +kernel
+
+example : parseSM [0, 0x10, 0x80, 0, 0x26, 0, 1, 1, 0x80, 0x10, 0x80, 0, 0x22, 0, 1, 2,
+                   0, 0x11, 4, 0, 0x24, 0, 1, 3, 0x80, 0x11, 6, 0, 0x20, 0, 1, 4] =
+    ({ mbx_out := some (0x1000, 0x80), mbx_in := some (0x1080, 0x80), pdo_out := some (0x1100, 4),
+       pdo_in := some (0x1180, 6), pdo_in_addr := 0x818, pdo_out_addr := 0x810 }, true) := by decide
+
+example : (⟨0x1000, 0x80, 0x26, 0, 1, 1⟩ : SMEntry).ok := by decide
+
+/-- the object dictionary of a terminal with one RxPDO (two entries) and an empty slot -/
+def exOd : OD := [((0x1c12, 0), [2]), ((0x1c12, 1), [0, 0]), ((0x1c12, 2), [0x00, 0x16]),
+  ((0x1600, 0), [2]), ((0x1600, 1), [16, 1, 0x00, 0x70]), ((0x1600, 2), [8, 2, 0x00, 0x70])]
+example : sdoEntries exOd 0x1c12 = ([⟨0x7000, 1, 16⟩, ⟨0x7000, 2, 8⟩], none) := by decide
+example : Describes exOd 0x1c12 [⟨0, []⟩, ⟨0x1600, [⟨0x7000, 1, 16⟩, ⟨0x7000, 2, 8⟩]⟩] := by
+  refine ⟨by decide, by decide, ?_⟩
+  intro i a hi
+  have hlt : i < 2 := by
+    rcases Nat.lt_or_ge i 2 with h | h
+    · exact h
+    · rw [List.getElem?_eq_none (by simpa using h)] at hi; cases hi
+  have : i = 0 ∨ i = 1 := by omega
+  rcases this with rfl | rfl
+  · simp at hi; subst hi; exact ⟨by decide, by decide, fun h => absurd rfl h⟩
+  · simp at hi; subst hi
+    refine ⟨by decide, by decide, fun _ => ⟨by decide, by decide, ?_⟩⟩
+    intro j e hj
+    have hlt : j < 2 := by
+      rcases Nat.lt_or_ge j 2 with h | h
+      · exact h
+      · rw [List.getElem?_eq_none (by simpa using h)] at hj; cases hj
+    have : j = 0 ∨ j = 1 := by omega
+    rcases this with rfl | rfl <;> simp at hj <;> subst hj <;> decide
+
 end Ebv.C17
